@@ -338,6 +338,7 @@
 		cmp	ebx, FLAGS_CPUID7_EBX_AVX512_G1
 		lea	mbin_rbx, [%6 WRT_OPT] ; AVX512/06 opt
 		cmove	mbin_rsi, mbin_rbx
+		jne	_%1_init_done	  ; No AVX512 group 1, so no AVX512 update either
 
 		and	ecx, FLAGS_CPUID7_ECX_AVX512_G2
 		cmp	ecx, FLAGS_CPUID7_ECX_AVX512_G2
@@ -483,6 +484,7 @@
 		cmp	ebx, FLAGS_CPUID7_EBX_AVX512_G1
 		lea	mbin_rbx, [%6 WRT_OPT] ; AVX512/06 opt
 		cmove	mbin_rsi, mbin_rbx
+		jne	_%1_init_done	  ; No AVX512, so the AVX512 SHANI version cannot be used
 
 		;; Test for SHANI
 		xor	ecx, ecx
